@@ -472,6 +472,8 @@ def make_case(seed, index):
     else:
         sc = gen_scenario(rng, cfg)
     sc["config"] = name
+    if name == "plain" and rng.chance(20):
+        sc["hostile_env"] = True
     sc["adversarial_picks"] = rng.choice([0, 5, 20, 60, 150])
     if cfg.get("stall"):
         sc["stall_shell"] = True
